@@ -79,6 +79,8 @@ func (c *AdminOP) SetCallback(cb func(app *AdminDBApp,data []byte) error) {
 
 type AdminCallback func(app *AdminDBApp,data []byte) error
 
+var errAdminOPDisabled = errors.New("admin precompile is disabled in read-only execution")
+
 // AdminContractAddress is the address of the Admin contract of the genesis allocation (core.AdminTo).
 // It is the only caller the admin precompile accepts: the contract prepends its own msg.sender to the
 // payload, so the `from` the precompile reads is the account that really submitted the request.
